@@ -1,0 +1,11 @@
+// Copyright 2024 The Go Authors. All rights reserved.
+// Use of this source code is governed by a BSD-style
+// license that can be found in the LICENSE file.
+
+//go:build !verif
+
+package sumdb
+
+func verifYield(point string) {}
+
+func verifInstall(c *Client, oldN, newN int64) {}
